@@ -9,7 +9,6 @@ NA = {
  "C16": "checker soundness w.r.t. runtime type errors is a theorem relating two 3000-line semantic functions; out of reach without a formalised semantics (the shared piece, is_subtype, is covered by C14).",
  "C17": "formatter preserving the syntax tree depends on offset/line arithmetic over arbitrary text; the named defect is an absent consideration, not a violated shape (panic sites of format are under C01).",
  "C18": "idempotence is a fixed point of a 9-phase text pipeline: a runtime quantity with no structural necessary condition.",
- "C19": "rename correctness is correctness of a name-resolution map on all programs; needs execution or a formal scoping model.",
  "C20": "extract variable/function preserve behaviour: free-variable and insertion-point computations over all programs; value-level property.",
  "C21": "wrap-in-dbg / add-type-annotation preserve behaviour: same reason as C20.",
  "C22": "safety of --fix edits is a property of byte ranges computed at run time from positions.",
@@ -121,12 +120,12 @@ chk("C02", "MIR panic-site inventory over everything reachable from eval::eval (
     "Trusted: as C01. D-VALSTACK assumes each scheduled sub-expression pushes exactly one value (not proved; the known finding `1 + continue` inside a for body is the recorded counterexample class). Drop-glue recursion on deeply nested values is outside MIR call facts.",
     "DESIGN.md sections 3 and 4 C02")
 
-chk("C09", "MIR panic-site inventory over the JSON worker thread's reachable code; interval path-count dataflow (exactly one print_as_json per request path, callee summaries); worker-loop exit shape; SKIP-BALANCE and VALSTACK-WRITERS who-may-write rules; FRAMING-EXACT (payload read with read_exact); WHO-CALLS-EVAL / TOPLEVEL-REPLACE; FRAME-COVER (shared with C10); C08's restore rules",
+chk("C09", "MIR panic-site inventory over the JSON worker thread's reachable code; interval path-count dataflow (exactly one print_as_json per request path, callee summaries); worker-loop exit shape; SKIP-BALANCE and VALSTACK-WRITERS who-may-write rules; FRAMING-EXACT (payload read with read_exact); WHO-CALLS-EVAL / TOPLEVEL-REPLACE; FRAME-COVER (shared with C10); C08's restore rules; RESTORE-BALANCE (C07's symbolic pop/restore walk: as many values handed back as popped); READER-NEVER-BLOCKS (nothing the stdin thread calls can wait on the worker)",
     "A panic on the worker thread loses every later request, so the inventory of C01/C02 is taken from handle_request_in_worker / eval_worker / handle_request; RESPONSE-ONCE proves min=max=1 responses on every CFG path of the request handler (Interrupt answered by the reader thread).",
     "Trusted: as C01/C02. Content and order of responses are not decided; the stdin framing loop is out of scope.",
     "DESIGN.md section 4 C09")
 
-chk("C28", "MIR panic-site inventory over lsp::run_lsp's reachable code; per-method region path-count (exactly one response iff an id is present, none for notifications); loop-exit shape; pipeline agreement with `garden check`; DOC-SYNC (stored and checked text = contentChanges.last().text, followed through a shared helper); DIAG-COMPLETE (one published diagnostic per item on every path of the conversion loops)",
+chk("C28", "MIR panic-site inventory over lsp::run_lsp's reachable code; per-method region path-count (exactly one response iff an id is present, none for notifications); loop-exit shape; pipeline agreement with `garden check`; DOC-SYNC (stored and checked text = contentChanges.last().text, followed through a shared helper); DIAG-COMPLETE (one published diagnostic per item on every path of the conversion loops); ARM-SHAPE also covers arms selected by a non-equality predicate on the method; FRAME-LENGTH (unit dataflow: the Content-Length value is the byte length of the text written)",
     "Panic-freedom of every handler the server can run is decided as in C01; ARM-SHAPE decides on handle_message's CFG that each of the 12 request methods answers exactly once when an id is present and that notifications never answer; the server loop leaves only on end of input or `exit`.",
     "Trusted: as C01; serde serialisation of the server's own response types does not fail. Range conversion clauses are under C29; equality of diagnostics beyond the pipeline shape is not decided.",
     "DESIGN.md section 4 C28")
@@ -135,6 +134,11 @@ chk("C29", "MIR unit dataflow (bytes / chars / UTF-16 code units; call-site-to-p
     "Structural necessary conditions of both halves of the property, each decided for all documents: columns the server sends are UTF-16 counts measured from the start of the line and the client's column is compared with a UTF-16 count; every TextEdit range comes from a text-taking converter applied to the same text the refactoring ran on; each LSP edit producer calls the function the command line calls. The offset<->position round trip and the edited text themselves are not computed.",
     "Trusted: rustc MIR; std's encode_utf16/len_utf16/char_indices; clients send UTF-16 positions. Line arithmetic (which line an offset is on, CRLF handling) and the refactorings' own output are not decided; one reviewed exception (garden_pos_to_lsp_range_no_src, never used for edits).",
     "DESIGN.md section 4 C29")
+
+chk("C19", "MIR edge dominance and operand provenance: SELECT-BY-DEFINITION (the rename visitor records symbol.position only on the equal edge of the comparison between the definition position looked up under symbol.id and the target's); DEF-SOURCE (set_binding / LocalBindings::set store the symbol's own position for the same symbol; every use site stores, under the use's id, what LocalBindings::get of the use's own name returned; who-may-write id_to_def_pos); LOOKUP-INNERMOST (reversed block iteration); SCOPE-PAIRING (path-count dataflow: enter_block/exit_block balanced on every path of every type-checker function); APPLY-RANGE (splice loop writes the new name once per position, between start_offset and end_offset); SAME-CORE (call graph: LSP and command line share rename_positions)",
+    "Structural necessary conditions of 'exactly the occurrences of one variable', each decided on the code for all programs: occurrences are selected by definition identity, never by spelling; the definition-position table is filled from the scope lookup of the symbol's own name, innermost block first; block scopes are balanced; the splice touches exactly the recorded ranges; server and command line share the computation. Which definition the language's scope rules bind a use to on a given program, and the output of the renamed program, are not decided.",
+    "Trusted: rustc MIR; the visitor reaches every symbol occurrence; the new name is fresh (given by the property). Was 'not applicable' in the plan; claimed for these clauses only.",
+    "DESIGN.md section 4 C19")
 
 ENGINES = [
  {"name": "gfacts", "path": "tools/gfacts", "kind_free_text": "rustc_private driver (nightly) dumping the type-checked MIR (CFG, resolved callees, asserts, places with field names) of every function of the garden crate as JSON; run as RUSTC_WORKSPACE_WRAPPER under cargo +nightly check on /repo's current tree"},
